@@ -188,6 +188,38 @@ def validate(func, *args, **kwds):
     NOTE: 'validate' does not call f(*args,**kwds), instead checks *args,**kwds
     against the call signature of func. Thus, 'validate' will fail when
     called to inspect builtins and other non-python functions."""
+    if not hasattr(inspect, 'signature'):
+        return _validate(func, *args, **kwds)
+    signature(func) # raises an error if func is not a python function
+
+    # use python's own binding rules for the verdict (they know about
+    # keyword-only arguments, and about partials of methods, of callable
+    # instances, and of arguments with defaults)
+    _func, _args, _kwds = func, args, kwds
+    while not inspect.ismethod(_func) and not inspect.isfunction(_func):
+        try: # if it's a partial, it first applies its own arguments
+            _args = tuple(_func.args) + tuple(_args)
+            _kwds = dict(_func.keywords or {}, **_kwds)
+            _func = _func.func
+        except AttributeError:
+            break
+    try:
+        inspect.signature(_func).bind(*_args, **_kwds)
+        return None
+    except ValueError: # no signature available, so use the rules below
+        return _validate(func, *args, **kwds)
+    except TypeError:
+        error = sys.exc_info()[1]
+    try: # prefer the error message built by the rules below
+        _validate(func, *args, **kwds)
+    except TypeError:
+        raise
+    except Exception:
+        pass
+    raise error
+
+def _validate(func, *args, **kwds):
+    """validate with klepto's own reading of the call signature of func"""
     named, defaults, hasargs, haskwds = signature(func)
 
     # if it's a partial, set func = func.func
